@@ -225,6 +225,9 @@ class Program:
             fn.key = self._key(fn)
         self._impl_index = None
         self._callgraph = None
+        self.touched = set()  # ids of the functions rules asked for by key
+        self.inline_helpers = None  # frozenset of helper ids to expand in by_key results (retry mode)
+        self._inl_cache = {}
 
     # -- types ------------------------------------------------------------------------
     def tstr(self, crate, idx):
@@ -323,7 +326,20 @@ class Program:
         return fn.id
 
     def by_key(self, key):
-        return [f for f in self.fns.values() if f.key == key]
+        r = [f for f in self.fns.values() if f.key == key]
+        self.touched.update(f.id for f in r)
+        if self.inline_helpers:
+            r = [self._inlined(f) for f in r]
+        return r
+
+    def _inlined(self, fn):
+        """The view of fn with the currently selected private helpers expanded in place (see inline.py)."""
+        ck = (fn.id, self.inline_helpers)
+        if ck not in self._inl_cache:
+            import inline
+            new, n = inline.inlined(self, fn, self.inline_helpers)
+            self._inl_cache[ck] = new if n else fn
+        return self._inl_cache[ck]
 
     def fn_by_key(self, key):
         r = self.by_key(key)
